@@ -157,7 +157,14 @@ func sLen(s Term) Term { return fieldOf(s, "mkSlice", 2, "slen", SInt) }
 func sCap(s Term) Term { return fieldOf(s, "mkSlice", 3, "scap", SInt) }
 
 // fieldOf projects component i of a constructor application when syntactically available.
+// defBodies maps the names introduced by FnVC.define (of the verification condition under construction) to their bodies,
+// so that a projection of a named constructor term still folds to the component.
+var defBodies = map[string]string{}
+
 func fieldOf(t Term, ctor string, i int, acc string, sort string) Term {
+	if b, ok := defBodies[t.S]; ok && strings.HasPrefix(b, "("+ctor+" ") {
+		t = Term{b, t.Sort}
+	}
 	if strings.HasPrefix(t.S, "("+ctor+" ") {
 		parts := splitSexp(t.S[len(ctor)+2 : len(t.S)-1])
 		if i < len(parts) {
@@ -978,6 +985,16 @@ func (fr *Frame) execTypeAssert(ins *ssa.TypeAssert) {
 		case *types.Map:
 			fr.vc.assume(tImp(ok, tNot(tEq(v, tInt(0)))))
 			fr.vc.assumes["interface values never hold typed-nil maps (values of a decoded YAML tree)"] = true
+		}
+	}
+	if pt := derefType(at); pt != nil {
+		if _, boxedHere := ins.X.(*ssa.MakeInterface); !boxedHere {
+			if n, isNamed := types.Unalias(pt).(*types.Named); isNamed && n.Obj().Pkg() != nil && !strings.HasPrefix(n.Obj().Pkg().Path(), modPrefix) {
+				// records built by a library (e.g. miekg/dns resource records, SVCB key values): an interface value whose
+				// dynamic type is a pointer to a library struct does not hold a typed nil pointer (listed assumption)
+				fr.vc.assume(tImp(ok, tNot(tEq(v, tInt(0)))))
+				fr.vc.assumes["interface values whose dynamic type is a pointer to a library struct ("+n.Obj().Pkg().Path()+") are not typed-nil"] = true
+			}
 		}
 	}
 	if !ins.CommaOk {
